@@ -1064,7 +1064,7 @@ package kcache
 @*/
 
 /*@ func (*kcache._watcher).run
-  props C04 C10 C14 C12 C08
+  props C04 C10 C14 C12 C08 C03
   theory watch
   requires [valid-w] (and (not (= {w} vnil)) (not (= {w.client} vnil)) (not (= {w.resetch} vnil)) (not (= {w.evtch} vnil)) (not (= {w.lc} vnil))
         (not (= {w.log} vnil)) (not (= {w.ctx} vnil)))
